@@ -51,6 +51,7 @@ func newClientCxn(l lane.Lane, cxn net.Conn, dispatcher *cmdDispatcher) *clientC
 	}
 
 	cc.cs = newClientState(l, cc, dispatcher)
+	simClientBorn(cc.cs.id, cxn.RemoteAddr().String())
 
 	cc.queueStateChange(csInitialize, nil)
 
